@@ -214,6 +214,64 @@ static void rnd_gen(Ctx& ctx) {
     });
 }
 
+// ------------------------------------------------------------------------------------------- primes(n) beyond the sieve table
+// primes(n) for n above 2^22 (the ranges above stop there): the complete list is compared with an odd-only bit sieve built in
+// the child: count, every element.  Quick: six arguments up to 2^24; thorough: up to 2^26.
+VK_SUB(plarge, "primes_large");
+static void plarge_check(const Json& c, Out& o) {
+    const uint32_t n = uint32_t(c.at("n").integer());
+    Progress pg;
+    o.evals = 0;
+    run_forked(o, 60.0 + 4e-6 * double(n), [&](Out& co) {
+        std::vector<bool> comp((size_t(n) >> 1) + 1, false);   // index i <-> odd number 2i+1
+        for (uint64_t i = 1; (2 * i + 1) * (2 * i + 1) <= n; ++i)
+            if (!comp[size_t(i)]) for (uint64_t j = ((2 * i + 1) * (2 * i + 1)) >> 1; j <= (uint64_t(n) - 1) / 2; j += 2 * i + 1) comp[size_t(j)] = true;
+        pg.set(int64_t(n) * 8 + F_PRIMES);
+        dsplib::arr_int pr = dsplib::primes(n);
+        long k = 0;
+        bool ok = true;
+        uint32_t bad = 0;
+        auto expect = [&](uint32_t q) { if (ok && (k >= pr.size() || uint32_t(pr[int(k)]) != q)) { ok = false; bad = q; } ++k; };
+        if (n >= 2) expect(2);
+        for (uint64_t i = 1; 2 * i + 1 <= n; ++i) if (!comp[size_t(i)]) expect(uint32_t(2 * i + 1));
+        if (!ok || k != pr.size()) co.fail("primes:value", fmt("primes(%u): %d values, the sieve has %ld; first disagreement at prime %u", n, pr.size(), k, bad));
+        co.evals = k;
+    }, &pg);
+    if (o.failed && o.sig == "hang") { o.sig = "primes:hang"; o.msg = fmt("primes(%u) did not return", n); }
+    o.nontrivial(key_of(7, n));
+    o.label(n <= (1u << 23) ? "n:<=2^23" : n <= (1u << 24) ? "n:<=2^24" : "n:<=2^26");
+}
+static void plarge_gen(Ctx& ctx) {
+    std::vector<int64_t> ns = {(1ll << 22) + (1ll << 13) + 1, (1ll << 23) - 3, (1ll << 24) + 1};
+    Rng r(mix(ctx.seed, 0x9A1));
+    for (int k = 0; k < 3; ++k) ns.push_back(r.range(1 << 22, 1 << 24));
+    if (ctx.thorough()) { ns.push_back(1ll << 25); ns.push_back((1ll << 26) - 1); for (int k = 0; k < 6; ++k) ns.push_back(r.range(1 << 24, 1 << 26)); }
+    for (int64_t n : ns) { if (!ctx.mine()) continue; ctx.eval(Json::object().set("n", (long long)n)); }
+}
+
+// ------------------------------------------------------------------------------------------- primes(n) at the edges of "not exceeding"
+// "primes(n) lists exactly the primes not exceeding n": the inclusive bound matters when n is itself prime, one below / above a
+// prime, or a prime square (the last number a sieve has to cross out).  Every such n up to 5000, sampled ones up to 2^20.
+VK_SUB(pedge, "primes_edges");
+static void pedge_check(const Json& c, Out& o) {
+    Json r = Json::object().set("lo", c.at("n")).set("hi", c.at("n")).set("what", 8);
+    range_check(r, o);
+    o.label("edge:" + c.gets("edge", "?"));
+}
+static void pedge_gen(Ctx& ctx) {
+    (void)sieve();
+    auto ev = [&](int64_t n, const char* e) { if (n < 0 || n > (1 << 20)) return; if (!ctx.mine()) return; ctx.eval(Json::object().set("n", (long long)n).set("edge", e)); };
+    for (int n = 0; n <= 5000; ++n) ev(n, sieve()[size_t(n)] ? "n prime" : "n composite (every n <= 5000)");
+    Rng r(mix(ctx.seed, 0xED6E));
+    const int samples = ctx.by_tier(400, 4000);
+    for (int k = 0; k < samples; ++k) {
+        uint32_t q = uint32_t(r.range(5000, 1 << 20));
+        while (!sieve()[q]) ++q;
+        ev(q, "n prime"); ev(int64_t(q) - 1, "n = prime - 1"); ev(int64_t(q) + 1, "n = prime + 1");
+    }
+    for (uint32_t q = 3; uint64_t(q) * q <= (1u << 20); ++q) if (sieve()[q]) { ev(int64_t(q) * q, "n = prime^2"); if (ctx.thorough()) { ev(int64_t(q) * q - 1, "n = prime^2 - 1"); ev(int64_t(q) * q + 1, "n = prime^2 + 1"); } }
+}
+
 // ------------------------------------------------------------------------------------------- call sequences
 // The range checks above call primes() once per child process and the other helpers with ascending arguments.  Here 2..10 calls
 // with unrelated arguments (going up AND down) run one after the other in one thread of one child: each answer must be what the
